@@ -297,7 +297,7 @@ class Verdict:
 
     def write_replay(self, v):
         os.makedirs(os.path.join(VERIF, "replays"), exist_ok=True)
-        body = {"property": self.pid, "signature": v["sig"], "case": v["case"], "detail": v["detail"],
+        body = {"property": self.pid, "signature": v["sig"], "case": v["case"], "detail": v["detail"], "prelude": v.get("prelude", 0),
                 "build": v.get("label", ""), "replay": v.get("replay"), "tier": self.tier, "seed": self.seed,
                 "repo": repo_dir()}
         h = hashlib.sha1(json.dumps([v["sig"], v["case"], v.get("label", "")]).encode()).hexdigest()[:10]
